@@ -1405,6 +1405,10 @@ class SymX:
                     for k, v in base[3]:
                         if k == attr:
                             return v
+                    dflt = self._field_default(ci, attr, node)
+                    if dflt is not None:
+                        st.heap[(base, attr)] = dflt
+                        return dflt
         if base[0] == "cls":
             ci = self.repo.classes.get(base[1])
             meth = self.repo.lookup_method(ci, attr) if ci else None
@@ -1416,6 +1420,24 @@ class SymX:
             res, _ = self._enter(prop, None, base, (), (), st)
             return res
         return ("attr", base, attr)
+
+    def _field_default(self, ci: ClassInfo, attr: str, node: ast.AST | None) -> Term | None:
+        """Default of a dataclass field: constants and `field(default_factory=list | set | dict | deque)`."""
+        for c in self.repo.mro(ci):
+            d = c.class_attrs.get(attr)
+            if d is None:
+                continue
+            if isinstance(d, ast.Constant):
+                return const(d.value)
+            if isinstance(d, ast.Call) and isinstance(d.func, (ast.Name, ast.Attribute)) and (d.func.id if isinstance(d.func, ast.Name) else d.func.attr) == "field":
+                for k in d.keywords:
+                    if k.arg == "default_factory" and isinstance(k.value, ast.Name) and k.value.id in ("list", "set", "dict", "deque"):
+                        kind = k.value.id
+                        return self._box(kind, {"list": ("list", ()), "set": ("set", ()), "dict": ("dict", ()), "deque": ("list", ())}[kind], d)
+                    if k.arg == "default" and isinstance(k.value, ast.Constant):
+                        return const(k.value.value)
+            return None
+        return None
 
     def _property(self, base: Term, attr: str, node: ast.AST | None) -> FuncInfo | None:
         fq = self._class_of(base, node)
@@ -1670,15 +1692,71 @@ class SymX:
                 return self._call_repo(callee, call, fterm[1], args, kwargs, st)
         if fterm[0] == "phi":
             return phi([(g, self._apply(a, args, kwargs, st, call)) for g, a in fterm[1]])
+        if fterm[0] == "attr":
+            # a bound method taken as a value: `add = names.append`, `visit = self._visit`
+            recv, name = fterm[1], fterm[2]
+            callee = self._method_of(recv, name)
+            if callee is not None:
+                return self._call_repo(callee, call, recv, args, kwargs, st)
+            return self._method(recv, name, args, kwargs, st, call)
+        table = self._dispatch_table(fterm)
+        if table is not None:
+            # a callable looked up in a display: each entry may be the one that is called (under `key == entry key`)
+            key, entries = table
+            outs = []
+            saved = st.pc
+            for k_, v_ in entries:
+                g = self.truth(("cmp", "==", key, k_))
+                st.pc = saved + ((g,) if g != TRUE else ())
+                if g != FALSE:
+                    outs.append((g, self._apply(v_, args, kwargs, st, call)))
+                st.alive = True
+            st.pc = saved
+            if outs:
+                return phi(outs)
         res = ("call", fterm, args, kwargs)
         self._record("call", fterm, None, show(fterm), args, kwargs, st, call, res)
         return res
+
+    def _method_of(self, recv: Term, name: str) -> FuncInfo | None:
+        """The single repo method `name` of the object `recv` (known for the receiver of the running frames and for new objects)."""
+        fq = None
+        if recv[0] == "new":
+            fq = recv[1]
+        else:
+            for fr in reversed(self.frames):
+                if fr.self_term is not None and fr.self_term == recv and fr.fi.cls is not None:
+                    fq = fr.fi.cls.fq
+                    break
+        ci = self.repo.classes.get(fq) if fq else None
+        if ci is None:
+            return None
+        impls = [i for i in self.repo.implementations(ci, name) if not i.is_abstract]
+        return impls[0] if len(impls) == 1 and not impls[0].is_property else None
+
+    def _dispatch_table(self, fterm: Term):
+        """(key term, [(entry key, callable value)]) for `table[key]` / `table.get(key)` on a dict display of callables."""
+        if fterm[0] == "idx":
+            base, key = fterm[1], fterm[2]
+        elif fterm[0] == "mcall" and fterm[2] == "get" and fterm[3]:
+            base, key = fterm[1], fterm[3][0]
+        else:
+            return None
+        d = base[3] if base[0] == "box" else base
+        if d[0] != "dict" or not d[1] or len(d[1]) > 6:
+            return None
+        if not all(v[0] in ("attr", "fn", "lambda", "partial", "cls", "bound") for _k, v in d[1]):
+            return None
+        return key, list(d[1])
 
     def _construct(self, cls_fq: str, args: tuple, kwargs: tuple, st: State, call: ast.Call | None) -> Term:
         ci = self.repo.classes.get(cls_fq)
         obj: Term = ("new", cls_fq, args, kwargs, self.fresh())
         self._record("call", ("cls", cls_fq), None, cls_fq.rsplit(".", 1)[-1], args, kwargs, st, call, obj)
-        if ci is not None and self.enter_ctor is not None and self.enter_ctor(ci):
+        enter = self.enter_ctor(ci) if ci is not None and self.enter_ctor is not None else (
+            ci is not None and self.entry is not None and ci.module is self.entry.module and not ci.bases and ci is not self.entry.cls and not ci.is_dataclass
+        )
+        if ci is not None and enter:
             init = self.repo.lookup_method(ci, "__init__")
             if init is not None and len(self.frames) <= self.max_depth and init.fq not in [f.fi.fq for f in self.frames]:
                 self._enter(init, call, obj, args, kwargs, st)
